@@ -107,8 +107,52 @@ def run(ck: Checker):
              'cleanup = apply_transformers over [RRG, MUO, MDG] (+ MEG when heavy)', 'cleanup pipeline changed shape', construct='cleanup pipeline')
     ck.floor(R, 11)
 
-    # ---- IDEM ----
-    R = 'C18.IDEM'
+    idem_rules(ck)
+
+    # ---- POST ----
+    R = 'C18.POST'
+    for modn, cname in ((f'{SIMPL}.merge_unary_operators', 'MergeUnaryOperators'), (f'{SIMPL}.merge_duplicate_gates', 'MergeDuplicateGates'),
+                        (f'{SIMPL}.merge_equivalent_gates', 'MergeEquivalentGates')):
+        m = repo.mod(modn)
+        init = m.func(f'{cname}.__init__')
+        sup = [c for c in calls_in(init) if norm(c.func) == 'super().__init__']
+        ok = False
+        if len(sup) == 1:
+            kw = {k.arg: k.value for k in sup[0].keywords}
+            post = kw.get('post_transformers', sup[0].args[1] if len(sup[0].args) > 1 else None)
+            ok = post is not None and isinstance(post, (ast.Tuple, ast.List)) and [norm(e) for e in post.elts] == ['RemoveRedundantGates()']
+        ck.check(ok, R, m, init, f'{cname} is followed by RemoveRedundantGates()', 'post_transformers is not (RemoveRedundantGates(),)', construct=f'{cname}.__init__ post_transformers')
+    ck.floor(R, 3)
+
+    # ---- RRG ----
+    R = 'C18.RRG'
+    m = repo.mod(f'{SIMPL}.remove_redundant_gates')
+    fn = m.func('RemoveRedundantGates._transform')
+    c = fn.args.args[1].arg
+    new = _new_circuit_var(fn)
+    dfs = [x for x in calls_in(fn, 'dfs') if norm(x.func.value) == c]
+    ok = False
+    hook = None
+    if len(dfs) == 1:
+        kw = {k.arg: k.value for k in dfs[0].keywords}
+        start = dfs[0].args[0] if dfs[0].args else kw.get('start_gates')
+        ok = start is not None and norm(start) == f'{c}.outputs' and set(kw) - {'start_gates'} == {'on_exit_hook'} and not kw.get('inverse')
+        hook = kw.get('on_exit_hook')
+    ck.check(ok, R, m, dfs[0] if dfs else fn, 'the rebuild traverses from circuit.outputs towards the inputs and emits only in the exit hook',
+             f'dfs call is `{norm(dfs[0])[:140] if dfs else None}`', construct='RemoveRedundantGates dfs call')
+    emits = [x for x in calls_in(fn, 'emplace_gate')]
+    ck.check(len(emits) == 1 and hook is not None and m.enclosing_function(emits[0]).name == norm(hook), R, m, fn,
+             'gates are emitted exactly in the exit hook (once per reached gate)', 'emplace_gate is not (only) in the on_exit hook', construct='RemoveRedundantGates emission site')
+    # traversal result is consumed
+    ck.check(len(dfs) == 1 and isinstance(m.parents.get(dfs[0]), ast.Call) and norm(m.parents[dfs[0]].func) == 'more_itertools.consume', R, m, fn,
+             'the lazy traversal is consumed', 'dfs(...) iterator is not consumed', construct='RemoveRedundantGates consume')
+    ck.floor(R, 3)
+    ck.assume('post-conditions of the merging passes (no duplicate signature / equal truth table / double negation) are not decided')
+
+
+def idem_rules(ck: Checker, R='C18.IDEM'):
+    repo = ck.repo
+    t = repo.mod(TRANSFORMER)
     lr = t.func('Transformer.linearize_reduce_transformers')
     ifs = [n for n in ast.walk(lr) if isinstance(n, ast.If)]
     loops = [n for n in ast.walk(lr) if isinstance(n, ast.For)]
@@ -154,42 +198,168 @@ def run(ck: Checker):
     ck.need(n_idem >= 1, 'no idempotent transformer found (RemoveRedundantGates expected)')
     ck.floor(R, 4)
 
-    # ---- POST ----
-    R = 'C18.POST'
-    for modn, cname in ((f'{SIMPL}.merge_unary_operators', 'MergeUnaryOperators'), (f'{SIMPL}.merge_duplicate_gates', 'MergeDuplicateGates'),
-                        (f'{SIMPL}.merge_equivalent_gates', 'MergeEquivalentGates')):
-        m = repo.mod(modn)
-        init = m.func(f'{cname}.__init__')
-        sup = [c for c in calls_in(init) if norm(c.func) == 'super().__init__']
-        ok = False
-        if len(sup) == 1:
-            kw = {k.arg: k.value for k in sup[0].keywords}
-            post = kw.get('post_transformers', sup[0].args[1] if len(sup[0].args) > 1 else None)
-            ok = post is not None and isinstance(post, (ast.Tuple, ast.List)) and [norm(e) for e in post.elts] == ['RemoveRedundantGates()']
-        ck.check(ok, R, m, init, f'{cname} is followed by RemoveRedundantGates()', 'post_transformers is not (RemoveRedundantGates(),)', construct=f'{cname}.__init__ post_transformers')
-    ck.floor(R, 3)
 
-    # ---- RRG ----
-    R = 'C18.RRG'
-    m = repo.mod(f'{SIMPL}.remove_redundant_gates')
-    fn = m.func('RemoveRedundantGates._transform')
-    c = fn.args.args[1].arg
-    new = _new_circuit_var(fn)
-    dfs = [x for x in calls_in(fn, 'dfs') if norm(x.func.value) == c]
-    ok = False
-    hook = None
-    if len(dfs) == 1:
-        kw = {k.arg: k.value for k in dfs[0].keywords}
-        start = dfs[0].args[0] if dfs[0].args else kw.get('start_gates')
-        ok = start is not None and norm(start) == f'{c}.outputs' and set(kw) - {'start_gates'} == {'on_exit_hook'} and not kw.get('inverse')
-        hook = kw.get('on_exit_hook')
-    ck.check(ok, R, m, dfs[0] if dfs else fn, 'the rebuild traverses from circuit.outputs towards the inputs and emits only in the exit hook',
-             f'dfs call is `{norm(dfs[0])[:140] if dfs else None}`', construct='RemoveRedundantGates dfs call')
-    emits = [x for x in calls_in(fn, 'emplace_gate')]
-    ck.check(len(emits) == 1 and hook is not None and m.enclosing_function(emits[0]).name == norm(hook), R, m, fn,
-             'gates are emitted exactly in the exit hook (once per reached gate)', 'emplace_gate is not (only) in the on_exit hook', construct='RemoveRedundantGates emission site')
-    # traversal result is consumed
-    ck.check(len(dfs) == 1 and isinstance(m.parents.get(dfs[0]), ast.Call) and norm(m.parents[dfs[0]].func) == 'more_itertools.consume', R, m, fn,
-             'the lazy traversal is consumed', 'dfs(...) iterator is not consumed', construct='RemoveRedundantGates consume')
-    ck.floor(R, 3)
-    ck.assume('post-conditions of the merging passes (no duplicate signature / equal truth table / double negation) are not decided')
+
+# ---------------------------------------------------------------------------
+# C18.UNARY: MergeUnaryOperators folded over every chain of unary gates (oracle traversals)
+
+
+class _ChainCircuit:
+    pass
+
+
+def unary_chain_fold(ck: Checker, rule='C18.UNARY'):
+    import itertools
+    from ..interp import Host, Interp, InterpRaise, RepoFunc, RepoClass, Instance
+    from ..rewrites import FakeCircuit, FakeGate
+    from ..tables import Denotations, GateTypeVal, gate_overrides
+    from .. import semantics
+    repo = ck.repo
+    den = Denotations(repo)
+    ov = gate_overrides(den)
+    types = {t.var: t for t in ov.values() if isinstance(t, GateTypeVal)}
+
+    class Model(FakeCircuit):
+        """Argument circuit with oracle traversals (C20 is assumed for the traversal itself)."""
+
+        def top_sort(self, *, inverse=False):
+            order = []
+            done = set()
+
+            def visit(l):
+                if l in done:
+                    return
+                for o in self._gates[l].operands:
+                    visit(o)
+                done.add(l)
+                order.append(self._gates[l])
+            for l in self._gates:
+                visit(l)
+            return order if inverse else list(reversed(order))
+
+        def dfs(self, start_gates=None, *, inverse=False, on_enter_hook=None, on_discover_hook=None, on_exit_hook=None, unvisited_hook=None,
+                on_traversal_end_hook=None, topsort_unvisited=False):
+            states = {}
+            seen = []
+
+            def visit(l):
+                if l in states:
+                    return
+                states[l] = 'ENTERED'
+                for o in self._gates[l].operands:
+                    visit(o)
+                states[l] = 'VISITED'
+                seen.append(l)
+                if on_exit_hook:
+                    on_exit_hook(self._gates[l], states)
+            for l in (start_gates if start_gates is not None else self._outputs):
+                visit(l)
+            if unvisited_hook:
+                for g in self.top_sort(inverse=True):
+                    if g.label not in states:
+                        unvisited_hook(g, states)
+            return iter(seen)
+
+    ov['cirbo.core.circuit.circuit.Circuit'] = lambda: FakeCircuit(types['INPUT'])
+    it = Interp(repo, overrides=ov, max_steps=2_000_000)
+    mm = repo.mod(f'{SIMPL}.merge_unary_operators')
+    fn = mm.func('MergeUnaryOperators._transform')
+    cls = RepoClass(mm, mm.cls('MergeUnaryOperators'))
+    try:
+        inst = it.instantiate(cls)
+    except (InterpRaise, Exception):
+        inst = Instance(cls)
+
+    NEG = ['NOT', 'LNOT', 'RNOT']
+    BUF = ['IFF', 'LIFF', 'RIFF']
+
+    def build(kinds, variant):
+        c = Model(types['INPUT'])
+        c.emplace_gate('x', types['INPUT'])
+        c.emplace_gate('y', types['INPUT'])
+        prev = 'x'
+        chain = []
+        for i, k in enumerate(kinds):
+            fam = NEG if k == 'n' else BUF
+            t = fam[(i + variant) % 3]
+            ops = (prev,) if t in ('NOT', 'IFF') else ((prev, 'y') if t[0] == 'L' else ('y', prev))
+            lab = f'u{i}'
+            c.emplace_gate(lab, types[t], ops)
+            chain.append(lab)
+            prev = lab
+        # a binary consumer on every chain position, plus the chain end as output
+        outs = []
+        for i, lab in enumerate(chain):
+            c.emplace_gate(f'w{i}', types['AND'], (lab, 'y'))
+            outs.append(f'w{i}')
+        outs.append(chain[-1])
+        outs.append(chain[len(chain) // 2])
+        c._outputs = outs
+        return c, chain
+
+    def reachable(c):
+        seen = set()
+        stack = list(c._outputs)
+        while stack:
+            l = stack.pop()
+            if l in seen:
+                continue
+            seen.add(l)
+            stack.extend(c._gates[l].operands)
+        return seen
+
+    def sig_operand(g):
+        t = g.gate_type.var
+        if t in ('NOT', 'IFF', 'LNOT', 'LIFF'):
+            return g.operands[0]
+        if t in ('RNOT', 'RIFF'):
+            return g.operands[1]
+        return None
+
+    probs = []
+    n_chains = 0
+    max_len = 5 if ck.tier == 'quick' else 6
+    for length in range(1, max_len + 1):
+        for kinds in itertools.product('nb', repeat=length):
+            for variant in (0, 1):
+                n_chains += 1
+                c, chain = build(kinds, variant)
+                it.steps = 0
+                try:
+                    new = RepoFunc(it, mm, fn, bound_self=inst)(c)
+                except InterpRaise as e:
+                    probs.append(f'chain {"".join(kinds)}: raises {e.exc_name}')
+                    continue
+                if new._inputs != c._inputs or len(new._outputs) != len(c._outputs):
+                    probs.append(f'chain {"".join(kinds)}: interface changed')
+                    continue
+                for vals in semantics.bools(2):
+                    a = {'x': vals[0], 'y': vals[1]}
+                    if [new.evaluate(o, a) for o in new._outputs] != [c.evaluate(o, a) for o in c._outputs]:
+                        probs.append(f'chain {"".join(kinds)} (variant {variant}): outputs differ on x,y={vals}')
+                        break
+                live = reachable(new)
+                negs = {l for l in live if new._gates[l].gate_type.var in NEG}
+                bufs = {l for l in live if new._gates[l].gate_type.var in BUF}
+                if set(kinds) == {'n'}:
+                    dbl = [l for l in negs if sig_operand(new._gates[l]) in negs]
+                    if dbl:
+                        probs.append(f'all-negation chain of length {length} (variant {variant}): {dbl[0]} = {new._gates[dbl[0]].gate_type.var}({sig_operand(new._gates[dbl[0]])}) is still a negation of a negation')
+                if set(kinds) == {'b'}:
+                    used_bufs = [l for l in live for o in new._gates[l].operands if o in bufs and l not in bufs] + [o for o in new._outputs if o in bufs]
+                    if used_bufs:
+                        probs.append(f'all-buffer chain of length {length}: a buffer is still used as operand or output')
+        if len(probs) > 4:
+            break
+    ck.check(not probs, rule, mm, fn, f'MergeUnaryOperators on every chain of <= {max_len} unary gates (all neg/buffer patterns, L/R variants, a consumer at every position): same interface and outputs; '
+             f'all-negation chains keep no negation of a negation, all-buffer chains no used buffer ({n_chains} chains, oracle traversals)', '; '.join(probs[:3]), construct='MergeUnaryOperators unary-chain bookkeeping')
+
+
+_run_without_unary = run
+
+
+def run(ck: Checker):  # noqa: F811
+    _run_without_unary(ck)
+    ck.rule('C18.UNARY', 'the parity/buffer redirection tables of MergeUnaryOperators folded over every chain of unary gates up to length 5 (6 thorough): function and interface kept, stated post-conditions reached; the recurrence is uniform in the chain position')
+    unary_chain_fold(ck)
+    ck.assume('dfs/top_sort behave as their oracle models while folding MergeUnaryOperators (C20)')
